@@ -117,10 +117,13 @@ impl std::io::Write for SerDev {
         }
     }
     fn flush(&mut self) -> std::io::Result<()> {
-        let s = self.0.lock().unwrap();
+        let mut s = self.0.lock().unwrap();
         if s.flush_ok { return Ok(()); }
+        // flush script, one base-8 digit per call, least significant first: 1 = Ok, anything else = an error of that kind (0 once the digits run out)
+        let d = s.flush_kind % 8; s.flush_kind /= 8;
+        if d == 1 { return Ok(()); }
         use std::io::ErrorKind::*;
-        let kind = match s.flush_kind { 2 => TimedOut, 3 => Interrupted, 4 => WouldBlock, 5 => Other, 6 => WriteZero, _ => BrokenPipe };
+        let kind = match d { 2 => TimedOut, 3 => Interrupted, 4 => WouldBlock, 5 => Other, 6 => WriteZero, _ => BrokenPipe };
         Err(std::io::Error::new(kind, "flush failed"))
     }
 }
